@@ -6,6 +6,7 @@
 """
 from __future__ import annotations
 
+import re
 import shutil
 import sys
 import time
@@ -28,7 +29,6 @@ BUGS = {
     "exitIgnoresWriteFailure": {"C20_ExitStatus"},
 }
 
-NO_DATA_NEEDED = {"SelData", "PathData", "FindData", "CliData", "ExprData", "PoolData", "DepsData", "ProgData", "LineData", "XmlData"}
 
 
 def main() -> int:
@@ -36,18 +36,34 @@ def main() -> int:
     spec = tlc.SPEC_DIR
     ok = True
     mods = sorted(p for p in spec.glob("*.tla"))
-    # modules that need a generated data module are parsed with a stub next to them
+    stubs = {p.stem for p in (spec / "stubs").glob("*.tla")}
     for p in mods:
         text = p.read_text()
-        needs = [n for n in NO_DATA_NEEDED if f", {n}" in text or f"EXTENDS {n}" in text]
-        if needs:
-            continue  # parsed when their check runs (they EXTEND a data module written at run time)
+        needs = [n for n in stubs if re.search(rf"\b{n}\b", text)]
         try:
-            tlc.sany(p)
-            print(f"sany ok   {p.name}")
+            if needs:
+                # generator specs EXTEND a data module written at run time: parse (and run) them on the committed stub data
+                d = scratch("stub")
+                shutil.copy(p, d / p.name)
+                for n in needs:
+                    shutil.copy(spec / "stubs" / f"{n}.tla", d / f"{n}.tla")
+                cfg = spec / f"{p.stem}.cfg"
+                if cfg.exists():
+                    shutil.copy(cfg, d / cfg.name)
+                    r = tlc.run_tlc(d, p.stem, cfg.name, timeout=300)
+                    print(f"tlc  ok   {p.name} on stub data: {r.distinct} states, violations={[v[1] for v in r.violated]}")
+                    if r.violated:
+                        ok = False
+                else:
+                    tlc.sany(d / p.name)
+                    print(f"sany ok   {p.name}")
+                shutil.rmtree(d, ignore_errors=True)
+            else:
+                tlc.sany(p)
+                print(f"sany ok   {p.name}")
         except tlc.TlcFailure as ex:
             ok = False
-            print(f"sany FAIL {p.name}: {str(ex)[-800:]}")
+            print(f"FAIL {p.name}: {str(ex)[-800:]}")
     res = tlc.run_tlc(spec, "MC_Run", "MC_Run.cfg", timeout=900)
     print(f"MC_Run design: {res.distinct} distinct states, depth {res.depth}, {res.wall_s:.1f}s, violations={[v[1] for v in res.violated]}")
     if res.violated:
